@@ -81,7 +81,7 @@ def cases(draw, tier):
             k['volatile'] = True
     blk = {'op': 'scope', 'name': 'S', 'children': kids, 'body': [sl()], 'catch': True}
     if draw(st.integers(0, 5)) == 0:
-        blk['op'], blk['notif'] = 'until', ['delay', draw(st.sampled_from([0.5, 1, 2, 3]))]
+        blk['op'], blk['notif'] = 'until', (['delay', draw(st.sampled_from([0.5, 1, 2, 3]))] if draw(st.booleans()) else ['flag', 0])
     ctl = {'name': 'ctl', 'steps': [{'op': 'at_eq', 't': draw(st.sampled_from([0.5, 1, 2]))}] +
            [{'op': 'instant'} for _ in range(draw(st.integers(0, 3)))] + [{'op': 'set_flag', 'i': 0, 'v': True}]}
     fin = {'name': 'fin', 'steps': [{'op': 'at_ge', 't': 500}, {'op': 'levels', 'r': 'R'}]}
@@ -93,7 +93,8 @@ def cases(draw, tier):
     else:
         faults = draw(st.lists(st.fixed_dictionaries({'k': st.integers(0, 150), 'target': st.sampled_from(targets),
                                                       'token': st.just([1])}), max_size=5))
-    return {'prog': prog, 'targets': targets, 'faults': faults, 'fields': fields}
+    return {'prog': prog, 'targets': targets, 'faults': faults, 'fields': fields,
+            'ctl_sweep': big and draw(st.integers(0, 2)) == 0}
 
 
 def vec(d, fields):
@@ -287,6 +288,7 @@ class C12(Check):
     def run_case(self, case, tier='quick'):
         out = Outcome()
         it, oc, exc, p, obs = self._run(case, ())
+        it0 = it
         out.evals = 1
         d = judge(out, case, it, oc, exc, obs, ' faults=None')
         N = p.k
@@ -301,6 +303,14 @@ class C12(Check):
         if d or {'forceful_close', 'interrupted_in_acquiring', 'interrupted_in_releasing',
                  'interrupted_while_held'} & out.features:
             out.nontrivial = True
+        if case.get('ctl_sweep'):
+            from vlib.gen import ctl_variants
+            for q in ctl_variants(case['prog'], it0):
+                c2 = dict(case, prog=q)
+                it, oc, exc, p, obs = self._run(c2, ())
+                out.evals += 1
+                judge(out, c2, it, oc, exc, obs, ' ctl=%r' % ([r['steps'] for r in q['roots'] if r['name'] == 'ctl'][0][:1],))
+            out.features.add('ctl_sweep')
         return out
 
 
